@@ -234,11 +234,12 @@ class ConstFlow:
 
     MAX_DISJ = 16
 
-    def __init__(self, cfg: CFG, params_consts: dict, hook=None):
+    def __init__(self, cfg: CFG, params_consts: dict, hook=None, keep_names=()):
         """hook(node, facts) -> {pseudo-var: abstract value} | None : lets a rule carry its own typestate (names starting
         with '$') through the same path-sensitive flow; the update applies to the normal out-edges of the node only."""
         self.cfg = cfg
         self.hook = hook
+        self.keep = set(keep_names)
         init = {}
         for k, v in (params_consts or {}).items():
             if isinstance(v, tuple) and v and v[0] in ('c', 'truthy', 'falsy', 'notnone'):
@@ -332,7 +333,7 @@ class ConstFlow:
                     for lab, pid in preds[i]:
                         work.append(pid)
             pre = cfg._cp_pre = (relevant, walrus, stores, live_in)
-        self.relevant = set(pre[0]) | set(init)
+        self.relevant = set(pre[0]) | set(init) | self.keep
         self._walrus, self._stores, self._live_in = pre[1], pre[2], pre[3]
         self.ins = solve(cfg, frozenset({frozenset(init.items())}), self._transfer, self._join)
 
@@ -402,7 +403,8 @@ class ConstFlow:
             if lab not in live_by_lab:
                 continue
             live = live_by_lab[lab]
-            res[lab] = frozenset(frozenset(x for x in d if x[0] in live or x[0][:1] == '$') for d in src) or None
+            keep = self.keep
+            res[lab] = frozenset(frozenset(x for x in d if x[0] in live or x[0][:1] == '$' or x[0] in keep) for d in src) or None
         return res
 
     def _norm(self, facts: dict):
